@@ -27,7 +27,10 @@ ASSUMPTIONS = [
 
 def cases(tier, variants):
     if tier == "quick":
-        yield from comp.syn_batches((1, 2), variants)
+        # cheap enough: the synthetic enumeration runs under ALL numeric variants on every
+        # change (ties and 1-ulp events depend on the numeric table, see DESIGN.md)
+        variants_syn = list(range(core.NVAR))
+        yield from comp.syn_batches((1, 2), variants_syn)
         yield from comp.syn_batches((3,), variants, third=1)
         yield from comp.tiled_batches((5, 8), variants)
         yield from F.convex_cases(2, variants, (1, 3), fams=("qp", "soft"),
